@@ -40,6 +40,7 @@ mod h_tables;
 mod h_loop;
 mod h_bytes;
 mod h_escape;
+mod h_listing;
 
 fn main() {
   let args: Vec<String> = std::env::args().collect();
@@ -57,6 +58,8 @@ fn main() {
     "replay-bytes" => h_bytes::replay(&opts),
     "escape" => h_escape::run(&opts),
     "replay-escape" => h_escape::replay(&opts),
+    "listing" => h_listing::run(&opts),
+    "replay-listing" => h_listing::replay(&opts),
     other => {
       eprintln!("unknown suite {}", other);
       2
